@@ -132,10 +132,85 @@ func clauseCalls(c *Ctx, rel string, cc *ast.CaseClause) []string {
 				}
 			}
 			out = append(out, name+"("+arg+")")
+			// a helper of the package that is handed fields of the statement: what it does with the corresponding
+			// parameters counts as done by the arm (one level), in the order of the helper's body
+			var fid *ast.Ident
+			switch f := call.Fun.(type) {
+			case *ast.Ident:
+				fid = f
+			case *ast.SelectorExpr:
+				fid = f.Sel
+			}
+			if fid == nil || p == nil {
+				return true
+			}
+			fo, ok := p.TypesInfo.Uses[fid].(*types.Func)
+			if !ok || fo.Pkg() == nil || fo.Pkg() != p.Types {
+				return true
+			}
+			hd := helperDecl(c, rel, fo)
+			if hd == nil || hd.Body == nil || hd.Type.Params == nil {
+				return true
+			}
+			// parameter name -> field name passed
+			var pnames []string
+			for _, f := range hd.Type.Params.List {
+				for _, nm := range f.Names {
+					pnames = append(pnames, nm.Name)
+				}
+			}
+			passed := map[string]string{}
+			for i, a := range call.Args {
+				if se, ok := a.(*ast.SelectorExpr); ok && i < len(pnames) {
+					passed[pnames[i]] = se.Sel.Name
+				}
+			}
+			if len(passed) == 0 {
+				return true
+			}
+			ast.Inspect(hd.Body, func(m ast.Node) bool {
+				c2, ok := m.(*ast.CallExpr)
+				if !ok {
+					return true
+				}
+				n2 := ""
+				switch f := c2.Fun.(type) {
+				case *ast.Ident:
+					n2 = f.Name
+				case *ast.SelectorExpr:
+					n2 = f.Sel.Name
+				}
+				a2 := ""
+				if len(c2.Args) > 0 {
+					if id, ok := c2.Args[0].(*ast.Ident); ok {
+						if fld, ok := passed[id.Name]; ok {
+							a2 = fld
+						}
+					}
+				}
+				out = append(out, n2+"("+a2+")")
+				return true
+			})
 			return true
 		})
 	}
 	return out
+}
+
+// helperDecl finds the declaration of a function or method of package rel.
+func helperDecl(c *Ctx, rel string, fo *types.Func) *ast.FuncDecl {
+	p := c.pkg(rel)
+	if p == nil {
+		return nil
+	}
+	for _, f := range p.Syntax {
+		for _, d := range f.Decls {
+			if fd, ok := d.(*ast.FuncDecl); ok && p.TypesInfo.Defs[fd.Name] == fo {
+				return fd
+			}
+		}
+	}
+	return nil
 }
 
 func runC03(c *Ctx) {
